@@ -593,6 +593,7 @@ class Executor:
                 final()
                 raise
             if handler.name:
+                from . import prelude
                 env[handler.name] = Opaque(self.S.const("exc!%d" % len(self.trace), prelude.U))
             self._handled = getattr(self, "_handled", []) + [r]
             try:
